@@ -9,7 +9,8 @@ Binding: every printed scenario is replayed into the real code (HTML box ->
 recorded backend Transform call; SVG element -> recorded Transform; matrix
 package API) and compared with the specification's integers.
 Variants: the transform declared in a rule shared by two elements of different font size with em lengths; every separator
-SVG allows between the functions of a list.
+SVG allows between the functions of a list; the border box made of content + padding + border (percentages refer to the
+border box); the inverse law on every matrix with its linear part scaled by 2^-12 and 2^10.
 """
 import os
 from vlib import MachineryError
